@@ -42,6 +42,9 @@ def universe():
     # integers that floats cannot tell apart, and one beyond the float range (all valid field values)
     for big in (2**53, 2**53 + 1, float(2**53), -(2**53) - 1, 10**400):
         pts.append(MPoint(T0, "m0", {"k": "a"}, {"x": big}))
+    # keys that contain a dot, a slash, a comma (a key is a literal; only attribute / item access builds a path)
+    pts.append(MPoint(T0, "m0", {"k": "a", "k.j": "a", "k/j": "a", "k,j": "a"}, {"x": 1, "x.y": 2, "x/y": 2, "x,y": 2}))
+    pts.append(MPoint(T0 + 1, "m1", {"k.j": "b"}, {"x.y": -1}))
     return pts
 
 
